@@ -3,6 +3,7 @@ from __future__ import annotations
 
 import random
 
+from ..lang import CMP_OPS
 from .. import gen, lang, sem, stateful, wiring
 
 PROPERTY = "C04"
@@ -34,7 +35,19 @@ def _mk(prog, stratum, rng, **kw):
 
 
 def step_expr(rng, cur, held):
-    k = rng.choice(["inc", "mul", "mod", "xor", "shr", "addheld", "sub", "and"])
+    k = rng.choice(["inc", "mul", "mod", "xor", "shr", "addheld", "sub", "and", "cmpmul", "ksub", "sel", "cmp", "cmpheld"])
+    cmp_ = ["c", rng.choice(CMP_OPS), cur, ["n", rng.randint(0, 9)]]
+    if k == "cmpmul":      # the cell is read through a comparison only: (m < 5) * 7
+        return ["b", "*", cmp_, ["n", rng.choice([1, 2, 7, -3])]]
+    if k == "ksub":        # 12 - (m > limit) * 5
+        lim = ["v", rng.choice(held)] if held and rng.random() < 0.5 else ["n", rng.randint(0, 9)]
+        return ["b", "-", ["n", rng.randint(5, 15)], ["b", "*", ["c", ">", cur, lim], ["n", rng.randint(1, 6)]]]
+    if k == "sel":         # (m < 9) : m + 1
+        return ["s", cmp_, ["b", "+", cur, ["n", rng.randint(1, 3)]]]
+    if k == "cmp":         # m == 0
+        return cmp_
+    if k == "cmpheld" and held:
+        return ["b", "+", ["c", rng.choice(CMP_OPS), cur, ["v", rng.choice(held)]], ["n", rng.randint(0, 3)]]
     if k == "inc":
         return ["b", "+", cur, ["n", rng.randint(1, 9)]]
     if k == "mul":
@@ -114,7 +127,7 @@ def gen_cases(tier, seed):
         st = rng.choice(STRATA)
         sub = random.Random(rng.randrange(1 << 60))
         prog, meta = build(sub, st)
-        c = _mk(prog, st, sub, meta=meta, nval=2 if tier == "quick" else 4)
+        c = _mk(prog, st + ("_skewed" if skewed_cells(prog) else ""), sub, meta=meta, nval=2 if tier == "quick" else 4)
         c["id"] = i
         cases.append(c)
     return cases
@@ -150,6 +163,64 @@ def find_latency(tr, f, lmax, dmax=4):
             if all(tr[t + L] == ff(tr[t]) for t in range(D, n - L)):
                 return L, D
     return None
+
+
+F_SKEW = "C04-unbalanced-read-paths-in-the-loop"
+
+
+def skewed_cells(prog):
+    """Cells whose written expression reads the cell through paths of different combinator depth.
+
+    depth(read)=0, constants / held inputs are depth-free; a combinator's signal operands that depend on the cell must
+    all have the same depth, otherwise it combines the cell's value of tick t with that of tick t-k."""
+    out = set()
+    for s in prog:
+        if s[0] != "mem":
+            continue
+        mem = s[1]
+        env = {}
+        flag = [False]
+
+        def depth(e):
+            k = e[0]
+            if k == "r":
+                return 0 if e[1] == mem else None
+            if k == "v":
+                return env.get(e[1])
+            if k == "n":
+                return None
+            if k == "p":
+                return depth(e[1])
+            if k in ("b", "c"):
+                ds = [d for d in (depth(e[2]), depth(e[3])) if d is not None]
+            elif k == "s":
+                ds = [d for d in (depth(e[1][2]), depth(e[1][3]), depth(e[2])) if d is not None]
+            elif k in ("!", "neg"):
+                ds = [d for d in (depth(e[1]),) if d is not None]
+            elif k in ("&&", "||"):
+                ds = [d for d in (depth(e[1]), depth(e[2])) if d is not None]
+                if len(ds) > 1:
+                    flag[0] = True
+            else:
+                ds = []
+            if not ds:
+                return None
+            if len(set(ds)) > 1:
+                flag[0] = True
+            return max(ds) + 1
+
+        for st in prog:
+            if st[0] == "sig":
+                was = flag[0]
+                env[st[1]] = depth(st[2])
+                if env[st[1]] is None:
+                    flag[0] = was
+            elif st[0] == "write" and st[1] == mem:
+                depth(st[2])
+        # only skews inside the cone of the write count; approximated by: any skew in an expression that depends on the cell
+        if flag[0]:
+            out.add(mem)
+    return out
 
 
 def analyse(ex, which, prog, meta, inputs, case):
@@ -243,6 +314,12 @@ def run_case(case):
                            why="%s (optimize=%s): %s" % (stage, opt, str(r["problems"][0])[:300]))
                 if stage == sem.K1:
                     out["finding"] = sem.K1
+                elif stage == "upstream" and skewed_cells(prog) and all(
+                        any(pr.get("reader") in m["ids"] for m in meta if m["mem"] in skewed_cells(prog))
+                        for pr in r["problems"] if pr.get("reader")):
+                    # every failing reader belongs to a cell whose loop combines the cell's value of different ticks
+                    out["finding"] = F_SKEW
+                    out["why"] = "unbalanced read paths: " + out["why"]
                 return out
         for rid, tr in res[True]["traces"].items():
             tr2 = res[False]["traces"].get(rid)
